@@ -10,6 +10,7 @@ cached.  The file is rewritten only if its content changes.
 What is measured, per configuration
   cfg64  default flags                      (64-bit words, `unsigned __int128` dwords)
   cfg32  -U__SIZEOF_INT128__ (+ -DDISABLE_ASM on the C++ side)     (32-bit words, 64-bit dwords)
+  cfg64p -DDISABLE_ASM on both sides                              (64-bit words, portable C++: the third supported build)
 
  * C side (gcc -std=c11, includes only the four .h files): for every `typedef struct {..} name;`
    found *textually* in the headers: sizeof, _Alignof, and offsetof/sizeof of every member.
@@ -54,6 +55,7 @@ OVERLAY_DIRS = ["src/wkdibe", "src/lqibe"]
 CONFIGS = [
     ("cfg64", [], []),
     ("cfg32", ["-U__SIZEOF_INT128__"], ["-U__SIZEOF_INT128__", "-DDISABLE_ASM"]),
+    ("cfg64p", ["-DDISABLE_ASM"], ["-DDISABLE_ASM"]),
 ]
 
 # Extra seeds (C struct name, C++ type expression, `using` context); normally not needed because
